@@ -453,6 +453,15 @@ class Interp(EvalMixin, BuiltinMixin):
                 return zint(fr.locals[idx]) <= auto_bound
             return zbool(truth(self.ev(parse_expr(text), sfr)))
 
+        # element types of still-empty lists come from the loop contract
+        for (lv, desc) in spec.havoc:
+            if desc is not None and isinstance(desc, tuple) and desc[0] == "list":
+                try:
+                    tgt = self.ev(parse_expr(lv), sfr)
+                    if isinstance(tgt, ListV) and tgt.elem is None and not tgt.items:
+                        tgt.elem = desc[1]
+                except UnresolvedName:
+                    pass
         # 1. invariant on entry
         for (il, text) in invs:
             run.oblige(lab(f"{il}.entry"), eval_inv(text), kind="loop-entry")
@@ -507,6 +516,7 @@ class Interp(EvalMixin, BuiltinMixin):
                         self.havoc_list_inplace(tgt, lv, desc)
                         havoced.add((id(tgt), "*"))
                 elif isinstance(tgt, IterV):
+                    tgt.pos = fresh("int", lv + ".pos", run)
                     havoced.add((id(tgt), "pos"))
                 else:
                     raise Unsupported(f"loop modifies clause {lv!r} is not a heap location")
